@@ -1466,19 +1466,58 @@ def pipeline_clauses():
     return set(re.findall(r'"([A-Za-z0-9_]+)"', body[:body.index("}")]))
 
 
+def pipeline_observations(traces):
+    """Recorded pipeline runs without the batches' activity: the manager-level events, and what each stage ended with."""
+    obs = []
+    for tr in traces:
+        evs = run_api.encode_pipeline(tr, "0")[0]["ev"]
+        n = tr["scn"]["n"]
+        keep, seen_complete, miss = [], set(), {}
+        faulty = False
+        for e in evs:
+            if e["e"] in ("pipeline", "create", "autoconfig"):
+                keep.append(e)
+            elif e["e"] == "summary":
+                if e["k"] not in miss:
+                    miss[e["k"]] = e["nmissing"]
+                    keep.append(e)
+            elif e["e"] == "status" and e["complete"] and e["k"] not in seen_complete:
+                seen_complete.add(e["k"])
+                keep.append(e)
+            elif e["e"] == "fault":
+                faulty = True
+        if faulty:
+            continue
+        ps = tr["pscn"]
+        last = [e for e in keep if e["e"] == "pipeline"]
+        done = bool(last and last[-1]["complete"])
+        stopped = bool(ps.get("autofail")) and any(e["e"] == "autoconfig" and e["rc"] != 0 for e in keep)
+        obs.append({"kind": "pipeline", "n": n, "auto": bool(ps.get("auto")), "fail": int(ps.get("autofail") or 0),
+                    "miss": [miss.get(k, 0) for k in range(1, n + 1)], "ev": keep, "cut": not (done or stopped),
+                    "driver": tr.get("driver")})
+    return obs
+
+
 def check_C15(ctx):
     q = ctx.tier == "quick"
+    ctx.model("Pipeline manager (all shapes <= 4 stages x outcomes x auto-config failures)", "Pipeline", "Pipeline_machine.cfg", workers=4)
     tasks = [("pipeline", (s, None)) for s in seeds(ctx, 160 if q else 3000, 81)]
     tasks += [("pipeline", (s, True)) for s in seeds(ctx, 40 if q else 500, 82)]
     traces = run_tasks(tasks)
     ctx.judge(traces, "pipelines of 1-4 stages (1-2 jobs each), local and HPC, random schedules, per-stage recovery",
               module="PipeTrace", encoder=run_api.encode_pipeline, clauses=pipeline_clauses())
+    pobs = pipeline_observations(traces)
+    ctx.extra["pipeline_observations"] = {"compared": len(pobs), "cut_short": sum(1 for o in pobs if o["cut"])}
+    judge_obs(ctx, "Pipeline", "Pipeline_obs.cfg", pobs, {"PipelineFollowsManager"},
+              "manager-level events of the recorded runs against Pipeline!Expected")
     ctx.samples = [{"kind": "pipeline run", "pipeline": traces[0]["pscn"],
                     "events": [e for e in run_api.encode_pipeline(traces[0], "0")[0]["ev"] if e["e"] != "activity"][:40]}]
     return ctx.finish(rule="random pipelines: 1-4 stages with 1-2 jobs each (dependencies, failing jobs, a batch failing at sbatch so "
                            "that a stage returns 1), batch size 1-2, max nodes, local and HPC mode, random schedules of the stages' "
-                           "batches and submitters, try-submit-jobs recovery on the current stage; validated by TLC against "
-                           "PipelineMonitor.tla")
+                           "batches and submitters, try-submit-jobs recovery on the current stage; half of the pipelines built from "
+                           "auto-config commands (one of which may fail); validated by TLC against PipelineMonitor.tla; the "
+                           "manager-level events of every run compared with Pipeline!Expected (Pipeline.tla: the manager as a "
+                           "deterministic function of the stages' outcomes, checked against the monitor for all shapes <= 4 stages)")
 
 
 CHECKS = {"C17": check_C17, "C19": check_C19, "C18": check_C18, "C20": check_C20, "C15": check_C15, "C13": check_C13, "C16": check_C16, "C14": check_C14, "C01": check_C01, "C07": check_C07, "C08": check_C08, "C10": check_C10, "C11": check_C11, "C12": check_C12}
